@@ -16,15 +16,6 @@ K("awkward_RegularArray_localindex",
   notes="the functional invariant over the nonlinear index q*size + r made z3's verdict depend on machine load; dropped -- the kernel stays pinned to its definition by E",
   serves=["C05", "C12", "C13"])
 
-# C02/C09: ByteMasked -> positions of the valid entries, in order (mask byte is "zero / non-zero")
-K("awkward_ByteMaskedArray_getitem_nextcarry",
-  extents={"tocarry": "length", "mask": "length"},
-  loops={"L0": ["0 <= i", "0 <= k", "k <= i",
-                "forall(q, 0, k, 0 <= tocarry[q] and tocarry[q] < i and ((mask[tocarry[q]] != 0) == validwhen))",
-                "forall(a_, 0, k, forall(b_, a_ + 1, k, tocarry[a_] < tocarry[b_]))"]},
-  ensures_ok=[],
-  serves=["C02", "C09", "C12", "C13"])
-
 # C09: regular pad-and-clip: every row gets exactly `target` slots, the first min(size,target) are the row's
 # own positions in order, the rest are -1
 K("awkward_RegularArray_rpad_and_clip_axis1",
